@@ -50,7 +50,8 @@ type c10Case struct {
 	SPP     int        `json:"spp,omitempty"`
 	PR      int        `json:"pr,omitempty"`
 	Pattern string     `json:"pattern,omitempty"`
-	PKind   string     `json:"pkind,omitempty"` // nil | default
+	PKind   string     `json:"pkind,omitempty"` // nil | default | typed
+	PSeed   uint64     `json:"pseed,omitempty"` // typed: the values written into the parameter object
 	Frames  []c10Frame `json:"frames,omitempty"`
 	// encobj
 	EncKind string `json:"enckind,omitempty"`
@@ -153,6 +154,15 @@ func (c10) Build(tier string, seed uint64) []any {
 			c.BA, c.BS, c.SPP, c.PR = c10FrameInfo(r, ts)
 			c.Pattern = patterns[i%len(patterns)]
 			c.PKind = gen.Pick(r, "nil", "default")
+			if i%4 == 3 && (ts == ".50" || ts == ".51" || ts == ".57" || ts == ".81" || ts == ".90" || ts == ".91" || ts == ".92" || ts == ".93") {
+				c.PKind, c.PSeed = "typed", r.U64()
+				if c.W < 2 {
+					c.W = 2
+				}
+				if c.H < 2 {
+					c.H = 2
+				}
+			}
 			n := 1 + r.Intn(8)
 			base := make([]c10Frame, 0, 8)
 			for k := 0; k < 4; k++ {
@@ -208,6 +218,21 @@ func (c10) Build(tier string, seed uint64) []any {
 		c := &c10Case{Gen: "codec", TS: ts, W: sz[0], H: sz[1], Pattern: "alternate", PKind: "nil"}
 		c.BA, c.BS, c.SPP, c.PR = c10FrameInfo(r, ts)
 		c.Frames = []c10Frame{{"noise", r.U64()}, {"smooth", r.U64()}}
+		cs = append(cs, c)
+	}
+	// (stats) frames whose symbol statistics drive the image-specific Huffman tables of the T.81
+	// codecs to their length limit (16-bit Fibonacci category profile; speckle with annotations)
+	for j, st := range []struct {
+		ts         string
+		ba, bs, sp int
+		class      string
+	}{{".57", 16, 16, 1, "fibcat"}, {".70", 16, 16, 1, "fibcat"}, {".57", 16, 16, 3, "fibcat"}, {".50", 8, 8, 1, "annot"}, {".50", 8, 8, 3, "annot"}, {".51", 16, 12, 1, "annot"}, {".70", 16, 15, 1, "fibcat"}} {
+		if tier != "thorough" && j >= 4 && (j+int(seed))%2 == 0 {
+			continue
+		}
+		r := gen.Sub(seed, "C10", "stats", j)
+		c := &c10Case{Gen: "codec", TS: st.ts, W: 70 + r.Intn(40), H: 70 + r.Intn(40), BA: st.ba, BS: st.bs, SPP: st.sp, Pattern: "stats", PKind: "nil"}
+		c.Frames = []c10Frame{{st.class, r.U64()}, {"noise", r.U64()}, {st.class, r.U64()}}
 		cs = append(cs, c)
 	}
 	encKinds := []string{"reversible", "irreversible", "rev-mct", "irr-mct", "layers", "roi", "ht", "custommct", "tiles", "irr-q", "rate"}
@@ -307,6 +332,51 @@ func c10Params(cd dcodec.Codec, kind string) dcodec.Parameters {
 	return nil
 }
 
+// c10ParamsFor returns a new parameter object for the case: nil, the codec's defaults, or (typed)
+// the codec's own parameter type with non-default values determined by PSeed.  Equal calls get
+// equal objects; the judged n-frame call, the rejected calls and the repeated call share ONE
+// object (a caller reusing its configuration), the solo reference calls get fresh equal ones.
+func c10ParamsFor(cd dcodec.Codec, c *c10Case) dcodec.Parameters {
+	if c.PKind != "typed" {
+		return c10Params(cd, c.PKind)
+	}
+	p := cd.GetDefaultParameters()
+	if p == nil {
+		return nil
+	}
+	r := gen.New(c.PSeed)
+	switch c.TS {
+	case ".50", ".51":
+		p.SetParameter("quality", 1+r.Intn(100))
+	case ".57":
+		p.SetParameter("predictor", 1+r.Intn(7))
+	case ".81":
+		p.SetParameter("near", r.Intn(6))
+	case ".90", ".92":
+		p.SetParameter("numLevels", r.Intn(4))
+		p.SetParameter("numLayers", 1+r.Intn(3))
+		p.SetParameter("progressionOrder", r.Intn(5))
+		p.SetParameter("rate", gen.Pick(r, 0, 20, 40))
+		p.SetParameter("appendLosslessLayer", true)
+		p.SetParameter("allowMCT", r.Bool())
+	case ".91", ".93":
+		// explicit sub-band steps: 3L+1 entries for the effective level count (frames up to 48
+		// samples on the short side are limited to one level by the codec)
+		l := r.Intn(2)
+		steps := make([]float64, 3*l+1)
+		for i := range steps {
+			steps[i] = 0.5 + float64(r.Intn(16))/2
+		}
+		p.SetParameter("numLevels", l)
+		p.SetParameter("subbandSteps", steps)
+		p.SetParameter("quantStepScale", gen.Pick(r, 0.5, 1.0, 1.5, 2.0, 2.0))
+		p.SetParameter("rate", 20+r.Intn(76))
+		p.SetParameter("numLayers", 1+r.Intn(2))
+		p.SetParameter("allowMCT", r.Bool())
+	}
+	return p
+}
+
 func c10Codec(c *c10Case) mon.Result {
 	res := mon.Hold()
 	res.Cell("ts=" + c.TS)
@@ -314,6 +384,7 @@ func c10Codec(c *c10Case) mon.Result {
 	res.Cell(fmt.Sprintf("nframes=%d", len(c.Frames)))
 	res.Cell(fmt.Sprintf("ba=%d/bs=%02d", c.BA, c.BS))
 	cd := Codec(c.TS)
+	mainP := c10ParamsFor(cd, c)
 	info := FrameInfo(c.W, c.H, c.BA, c.BS, c.SPP, c.PR, 0)
 	bytesPer := c.BA / 8
 	var frames, keep [][]byte
@@ -344,7 +415,7 @@ func c10Codec(c *c10Case) mon.Result {
 	// ---- n-frame encode on the registry instance
 	src := NewPD(info, frames...)
 	enc := NewPD(info)
-	if err := cd.Encode(src, enc, c10Params(cd, c.PKind)); err != nil {
+	if err := cd.Encode(src, enc, mainP); err != nil {
 		return fail("encode-error", err.Error())
 	}
 	if r := checkSources("encode"); r != nil {
@@ -375,7 +446,7 @@ func c10Codec(c *c10Case) mon.Result {
 	other := newInstance(c.TS)
 	for i := range frames {
 		solo := NewPD(info)
-		if err := cd.Encode(NewPD(info, frames[i]), solo, c10Params(cd, c.PKind)); err != nil {
+		if err := cd.Encode(NewPD(info, frames[i]), solo, c10ParamsFor(cd, c)); err != nil {
 			return fail("encode-error", fmt.Sprintf("solo encode of frame %d: %v", i, err))
 		}
 		if len(solo.Frames) != 1 || !bytes.Equal(solo.Frames[0], enc.Frames[i]) {
@@ -409,7 +480,7 @@ func c10Codec(c *c10Case) mon.Result {
 		uinfo := FrameInfo(uw, uh, uba, ubs, uspp, c.PR, 0)
 		us := gen.Content(gen.New(c.Frames[0].CSeed^0x55), "noise", uw, uh, uspp, ubs, 0)
 		tmp := NewPD(uinfo)
-		_ = cd.Encode(NewPD(uinfo, gen.PackN(us, uba/8)), tmp, c10Params(cd, c.PKind))
+		_ = cd.Encode(NewPD(uinfo, gen.PackN(us, uba/8)), tmp, c10ParamsFor(cd, c))
 		if len(tmp.Frames) == 1 {
 			tmp2 := NewPD(uinfo)
 			_ = cd.Decode(NewPD(uinfo, tmp.Frames[0]), tmp2, nil)
@@ -421,15 +492,15 @@ func c10Codec(c *c10Case) mon.Result {
 	func() {
 		defer func() { _ = recover() }()
 		short := append([]byte(nil), keep[0][:len(keep[0])-1-len(keep[0])/3]...)
-		_ = cd.Encode(NewPD(info, append([]byte(nil), keep[0]...), short), NewPD(info), c10Params(cd, c.PKind))
-		_ = cd.Encode(NewPD(info, short), NewPD(info), c10Params(cd, c.PKind))
+		_ = cd.Encode(NewPD(info, append([]byte(nil), keep[0]...), short), NewPD(info), mainP)
+		_ = cd.Encode(NewPD(info, short), NewPD(info), mainP)
 		if len(enc.Frames[0]) > 8 {
 			cut := append([]byte(nil), enc.Frames[0][:len(enc.Frames[0])*2/3]...)
 			_ = cd.Decode(NewPD(info, cut), NewPD(info), nil)
 		}
 	}()
 	again := NewPD(info)
-	if err := cd.Encode(NewPD(info, frames...), again, c10Params(cd, c.PKind)); err != nil {
+	if err := cd.Encode(NewPD(info, frames...), again, mainP); err != nil {
 		return fail("encode-error", "repeat: "+err.Error())
 	}
 	for i := range frames {
